@@ -3,6 +3,7 @@ mod dbhist;
 mod docver;
 mod legacy;
 mod storagefam;
+mod taskfam;
 mod pools;
 mod synchist;
 mod util;
@@ -101,6 +102,11 @@ fn main() {
         "storage" => {
             for id in first..first + count {
                 emit(&mut out, util::guarded(|| storagefam::gen_storage(seed, id, maxlen)));
+            }
+        }
+        "task-read" => {
+            for id in first..first + count {
+                emit(&mut out, util::guarded(|| taskfam::gen_read(seed, id)));
             }
         }
         "storage-legacy" => {
